@@ -6,7 +6,7 @@ SPEC = {
         "claim": {
             "category": "exploration",
             "technique": "bounded-exhaustive integer flag sweep + rapidcheck-generated multi-field format calls compared byte for byte with an independent interpreter of the format mini-language",
-            "text": "Every combination of alignment, pad (none, custom, zero flag, '_0'), six widths around the natural length, '#', '+', digit class and two part orders is formatted for "
+            "text": "Every combination of alignment, pad (none, custom, zero flag, '_0'), six widths around the natural length, '#', '+', digit class and two part orders is formatted for  errno is preset to 0 / ERANGE / EINVAL / EDOM before every format call (a function of the case bytes). Both tiers run a second build with an unsigned plain char (-funsigned-char; a reduced number of generated cases and no enumerators in the quick tier)."
                     "0, +-1, +-9, +-10, +-255, radix boundaries, min and max of all 15 integer and character types (about 0.86 M typed ST::format calls, complete in both tiers) and compared "
                     "with the reference rendering; generated calls mix 1-5 fields (sequential and &N), brace escapes, non-ASCII literals and 1-5 arguments of 32 types with widths and "
                     "precisions in every relation to the natural length, {c} on values inside and outside 0..10FFFF, through both ST::format and ST::format(assume_valid). The flag "
